@@ -273,6 +273,157 @@ def file_level(rep, vd, bld, tier, cfgs):
     return pending
 
 
+# ------------------------------------------------------------------------------------------------
+# (G) source level: TLC writes the modules as statement lists, the real asl writes the relocatable files
+# ------------------------------------------------------------------------------------------------
+def nm(x):
+    return "".join(map(chr, x))
+
+
+_OPC = {144: "mov\tdptr,#%s", 2: "ljmp\t%s", 18: "lcall\t%s"}
+
+
+def render(prog):
+    """statement list of spec/RelocWriter.tla -> MCS-51 source text (rendering only)"""
+    out = []
+    for st in prog:
+        op = st["op"]
+        if op == "cpu":
+            out.append("\tcpu\t8051")
+        elif op in ("rseg", "aseg"):
+            out.append("\t" + op)
+        elif op == "extern":
+            out.append("\textern_sym\t" + ",".join(nm(n) for n in st["names"]))
+        elif op == "export":
+            out.append("\texport_sym\t" + ",".join(nm(n) for n in st["names"]))
+        elif op == "org":
+            out.append("\torg\t%d" % st["addr"])
+        elif op == "res":
+            out.append("\tds\t%d" % st["n"])
+        elif op == "db":
+            out.append("\tdb\t" + ",".join("%d" % b for b in st["bytes"]))
+        elif op == "label":
+            out.append(nm(st["name"]) + ":")
+        elif op == "equ":
+            out.append("%s\tequ\t%d" % (nm(st["name"]), st["value"]))
+        elif op == "ref":
+            expr = "+".join([nm(n) for n in st["names"]] + (["%d" % st["add"]] if st["add"] else []))
+            out.append("\t" + ("mov\ta,#%s" % expr if st["w"] == 1 else _OPC[st["opc"]] % expr))
+        else:
+            raise CheckError("cannot render statement %r" % (st,))
+    return "\n".join(out) + "\n"
+
+
+def body(b):
+    """a code file without its creator string (asl and the model name different creators)"""
+    p = relocfile.parse(bytes(b))
+    return bytes(b[:p.body_len]) if p.body_len else bytes(b)
+
+
+def source_level(rep, vd, bld, tier, nsim):
+    with Phase("TLC ALink_Gen families"):
+        r = tlc.must(tlc.run("ALink_Gen", "ALink_Fam.cfg", timeout=1500, mem="8g"), "ALink_Fam.cfg")
+    if r.violation:
+        raise CheckError("ALink_Gen families: %s" % r.violation[:600])
+    rep.model("ALink_Gen(ALink_Fam.cfg)", r)
+    cases = [x for (t, x) in r.printed if t == "TR"]
+    with Phase("TLC ALink_Gen simulate"):
+        sim = tlc.must(tlc.run("ALink_Gen", "ALink_Sim.cfg", workers=4, simulate=nsim, depth=14, timeout=1500, mem="8g"),
+                       "ALink_Sim.cfg")
+    seen = set()
+    for (t, x) in sim.printed:
+        if t == "BEH":
+            k = json.dumps(x["src"], sort_keys=True)
+            if k not in seen:
+                seen.add(k)
+                cases.append(x)
+    for x in cases:
+        if not (x["allowed"] and x["accepted"]):
+            raise CheckError("specification inconsistent (ALink_Gen): %s" % json.dumps(x["src"])[:400])
+    # 1. the real assembler writes the modules
+    ajobs = []
+    for x in cases:
+        for prog in x["src"]:
+            ajobs.append({"argv": ["-q", "m.asm"], "files": {"m.asm": render(prog).encode()}, "want": ["m.p"]})
+    with Phase("assemble %d modules" % len(ajobs)):
+        ares = utilrun.run_many(bld, "asl", ajobs)
+    k = 0
+    ljobs, lcases = [], []
+    nwr = 0
+    for x in cases:
+        files = []
+        usable = True
+        for i, prog in enumerate(x["src"]):
+            res = ares[k]
+            src = ajobs[k]["files"]["m.asm"].decode()
+            k += 1
+            rep.evaluated()
+            p = res["files"].get("m.p")
+            if _rc(res) != 0 or p is None:
+                usable = False
+                vd.drift("asl rejects a generated module", "rc=%s %s\n%s" % (_rc(res), (res["out"] + res["err"])[-300:], src))
+                continue
+            files.append(p)
+            # writer binding: byte for byte what RelocWriter!FileItems + RelocFile!REncode say (up to the creator string)
+            if body(p) != body(x["c"]["files"][i]):
+                nwr += 1
+                text = "asl wrote %s; RelocWriter expects %s; source:\n%s" % (
+                    relocfile.describe(p), relocfile.describe(bytes(x["c"]["files"][i])), src)
+                if STRICT:
+                    rep.violation("relocatable code file differs from the writer model: " + text,
+                                  files={"m.asm": src, "m.p": p}, key={"tool": "asl", "explained_by": "none"})
+                else:
+                    vd.drift("UNEXPLAINED relocatable code file (writer model)", text)
+            elif x["lost"][i] or x["split"][i] or not x["faithful"][i]:
+                vd.drift("writer deviation %s (asl does what the as-coded writer model says; RelocWriter!Faithful does not hold)"
+                         % ("tail_exports_lost" if x["lost"][i] else "split_patch_stray" if x["split"][i] else "?"),
+                         relocfile.describe(p) + "; source:\n" + src)
+        if usable:
+            ljobs.append(alink_job(files))
+            lcases.append((x, files))
+    rep.traces(len(ajobs))
+    # 2. the real linker links what the real assembler wrote
+    with Phase("link %d sets" % len(ljobs)):
+        lres = utilrun.run_many(bld, "alink", ljobs)
+    pending = []
+    imgs = []
+    for (x, files), job, res in zip(lcases, ljobs, lres):
+        obs = alink_obs(res)
+        rep.evaluated()
+        rep.distinct("alink-src/" + json.dumps(x["src"], sort_keys=True), bool(x["def"]))
+        same_inputs = all(body(f) == body(e) for f, e in zip(files, x["c"]["files"]))
+        good = same_inputs and fits_ideal(x["exp"], obs)
+        if good and x["def"] and x["decl"]["rc"] == 0 and obs["rc"] == 0:
+            want = image_of_recs(x["decl"]["recs"])
+            pr = codefile.parse(bytes(obs["bytes"]))
+            if not pr.well_formed or pr.image() != want:
+                good = False
+            else:
+                imgs.append((x, bytes(obs["bytes"]), want))
+        if not good:
+            pending.append((x["tag"], files, job, obs))
+    rep.traces(len(ljobs))
+    # 3. ... and p2bin turns the linked file into the memory image Link_decl describes
+
+    def p2b(t):
+        return aslrun.p2bin_image(bld, t[1])
+    with Phase("p2bin on %d linked files" % len(imgs)):
+        bins = pmap(p2b, imgs) if imgs else []
+    nb = 0
+    for (x, pb, want), got in zip(imgs, bins):
+        if got != code_window(want):
+            nb += 1
+            vd.drift("p2bin image of the linked file differs from Link_decl",
+                     "linked %s; p2bin gives %s" % (relocfile.describe(pb), (got or b"").hex()[:200]))
+    rep.part("ext_alink_sources", link_sets=len(cases), simulated_distinct=len(seen), modules_assembled=len(ajobs),
+             writer_files_differing=nwr, linked=len(ljobs), images_compared=len(imgs), p2bin_images_differing=nb,
+             differing_from_ideal_model=len(pending))
+    if cases:
+        rep.sample({"tool": "asl+alink", "tag": cases[0]["tag"], "sources": [render(p) for p in cases[0]["src"]],
+                    "expected": cases[0]["exp"]})
+    return pending
+
+
 def run(rep, bld, tier):
     vd = Verdicts(rep)
     rep.assumptions += ["ALINK / relocatable records: neither the manual nor a listed property defines them; Link_decl is written "
@@ -280,6 +431,7 @@ def run(rep, bld, tier):
                         "codes 0..3), every other mismatch is SPEC-DRIFT (VERIF_ALINK_STRICT=1 turns unexplained ones into "
                         "violations)"]
     pending = file_level(rep, vd, bld, tier, ["ALink_List.cfg", "ALink_Cover.cfg"])
+    pending += source_level(rep, vd, bld, tier, 120 if tier == "quick" else 2500)
     stats = judge(rep, vd, tier, pending, bld)
     rep.part("ext_alink_judged", **stats)
     vd.flush()
